@@ -113,3 +113,35 @@ def accepts(s):
         if _is_number(net) and (rest == "*" or _is_station(rest)):
             return True
     return False
+
+
+def selftest():
+    """the reference against the standard library (plain execution, at import of the harness)"""
+    import ipaddress
+    bad = []
+    for text in ("0.0.0.0", "1.2.3.4", "10.0.0.255", "127.0.0.1", "192.168.0.10", "199.200.249.250",
+                 "255.255.255.255", "128.0.0.0", "100.64.31.7"):
+        o = [int(p) for p in text.split(".")]
+        ip = ip_number(o)
+        if ip != int(ipaddress.IPv4Address(text)) or number_octets(ip) != o:
+            bad.append(("ip_number", text))
+        for m in range(33):
+            n = ipaddress.ip_interface("%s/%d" % (text, m)).network
+            mask, subnet, host, bcast = ip_fields(ip, m)
+            if (mask, subnet, host, bcast) != (int(n.netmask), int(n.network_address), ip - int(n.network_address),
+                                               int(n.broadcast_address)):
+                bad.append(("ip_fields", text, m))
+    yes = ["1", "254", "0x01", "0x0102", "X'01'", "X'0102'", "*", "1:*", "1:2", "1:0x02", "1:X'0203'", "*:*",
+           "1.2.3.4", "1.2.3.4:47809", "1.2.3.4/24", "1.2.3.4/24:47809", "5:1.2.3.4", "5:1.2.3.4/8:1",
+           "01:02:03:04:05:06", "aB:cD:eF:01:23:45", "00012:007"]
+    no = ["", ":", "1:", ":1", "*1", "1*", "*:", ":*", "*:*:", "1:*2", "0x", "0x1", "0x123", "X'01", "X01'", "X''",
+          "x'01'", "0X01", "1.2.3", "1.2.3.4.5", "1.2.3.4/", "1.2.3.4:", "1.2.3.4/24/8", "1..2.3", ".1.2.3.4",
+          "01:02:03:04:05", "01:02:03:04:05:06:07", "01:02:03:04:05:6", "1 ", " 1", "1:2:3", "a", "1@2", "*:5",
+          "g0:00:00:00:00:00", "1:1.2.3.4:5:6", "5:*:*"]
+    for t in yes:
+        if not accepts(t):
+            bad.append(("accepts", t))
+    for t in no:
+        if accepts(t):
+            bad.append(("rejects", t))
+    return bad
